@@ -8,10 +8,16 @@ def prop(pid, functions, lemmas=(), assumes=(), not_decided='', bounded=()):
                        'not_decided': not_decided, 'bounded': list(bounded)}
 
 
+HASHING = [('/wsync', 'βhash'), ('/wsync', '(*Context).uniqueHash'), ('/wsync', '(*Context).HashBlock')]
+BLOCKVALIDATOR = [('/pwr', 'ComputeNumBlocks'), ('/pwr', 'ComputeBlockSize'), ('/pwr', '(*blockValidator).BlockSize'),
+                  ('/pwr', '(*blockValidator).ValidateAsWound'), ('/pwr', '(*blockValidator).ValidateAsError')]
+DRIP = [('/pwr/drip', '(*Writer).Write'), ('/pwr/drip', '(*Writer).Close')]
+
 prop('C18',
-     functions=[('/pwr/drip', '(*Writer).Write')],
-     assumes=['A-MD5'],
-     not_decided='')
+     functions=DRIP + [('/pwr', '(*ValidatingPool).GetWriter$2'), ('/pwr/onclose', '(*Writer).Close')] + BLOCKVALIDATOR + HASHING,
+     assumes=['A-MD5 (hstrong is MD5; bytes.Equal decides equality of digest values)',
+              'callers respect drip.Write requires (no Write after an error; Buffer and data do not alias)'],
+     not_decided='the relay goroutine of GetWriter and the construction of the drip writer in GetWriter (len(Buffer) == BlockSize) are not under contract; tiling of wound ranges across blocks follows from start == k*BS and end == start + cbs by arithmetic outside the verified text')
 
 # properties with a registered check
 CLAIMED = set()
